@@ -70,6 +70,7 @@ func (e *Engine) spawn(fn value, args []value) {
 	g := &gthread{id: len(e.threads), wake: make(chan struct{}, 1)}
 	e.threads = append(e.threads, g)
 	e.Goroutines++
+	e.raceSpawn(g)
 	go func() {
 		<-g.wake
 		defer func() {
@@ -204,6 +205,8 @@ func (e *Engine) chanSend(ch *chanv, v value) {
 	}
 	if t, ci := e.findBlocked(ch, opRecv); t != nil {
 		t.op.recvV, t.op.recvOK, t.op.chosen = v, true, ci
+		e.raceSync(e.curTid(), e.tidOfThread(t))
+		e.raceSync(e.tidOfThread(t), e.curTid())
 		e.unblock(t)
 		return
 	}
@@ -233,6 +236,8 @@ func (e *Engine) tryRecv(ch *chanv) (value, bool, bool) {
 			v = t.op.cases[ci].val
 			t.op.chosen = ci
 		}
+		e.raceSync(e.tidOfThread(t), e.curTid())
+		e.raceSync(e.curTid(), e.tidOfThread(t))
 		e.unblock(t)
 		return v, true, true
 	}
@@ -412,3 +417,17 @@ func init() {
 }
 
 var _ = fmt.Sprint
+
+// tidOfThread maps an interpreted goroutine to its logical thread id (access tracing).
+func (e *Engine) tidOfThread(t *gthread) int {
+	if e.race == nil {
+		return 0
+	}
+	if t == e.mainT {
+		if e.race.taskTid >= 0 {
+			return e.race.taskTid
+		}
+		return 0
+	}
+	return e.race.tidOf[t]
+}
